@@ -46,7 +46,9 @@ func checkC01(c *Ctx) {
 		p.Write()
 		var cache *cdi.Cache
 		history := []string{"initial"}
-		if pv, st := guard(func() { cache, _ = cdi.NewCache(cdi.WithSpecDirs(p.Conf...), cdi.WithAutoRefresh(false)) }); pv != nil {
+		opt, reuse := withDirs(p.Conf)
+		defer func() { reuse() }()
+		if pv, st := guard(func() { cache, _ = cdi.NewCache(opt, cdi.WithAutoRefresh(false)); reuse() }); pv != nil {
 			cs.Violation("panic", nil, fmt.Sprintf("NewCache panics: %v", pv), map[string]any{"population": p.Describe(), "stack": st})
 			return
 		}
@@ -56,7 +58,7 @@ func checkC01(c *Ctx) {
 				// the directory list itself changes: the cache is reconfigured (which rescans)
 				history = append(history, p.Relist(r, -1))
 				c.Count("reconfigurations", 1)
-				if pv, st := guard(func() { cache.Configure(cdi.WithSpecDirs(p.Conf...)) }); pv != nil {
+				if pv, st := guard(func() { o, ru := withDirs(p.Conf); cache.Configure(o); ru() }); pv != nil {
 					cs.Violation("panic", nil, fmt.Sprintf("Configure panics: %v", pv), map[string]any{"population": p.Describe(), "history": history, "stack": st})
 					return
 				}
@@ -111,7 +113,9 @@ func checkC01(c *Ctx) {
 			if k > 0 && chance(r, 25) {
 				history = append(history, p.Relist(r, p.Protect))
 				c.Count("reconfigurations_auto", 1)
-				a.C.Configure(cdi.WithSpecDirs(p.Conf...))
+				o, ru := withDirs(p.Conf)
+				a.C.Configure(o)
+				ru()
 			} else if k > 0 {
 				history = append(history, p.Step(r))
 				if !a.Quiesce() {
